@@ -38,6 +38,9 @@ CLAIMED = {
     "C18": (True, "exploration", "DESIGN.md §3 C18",
             "C08's world with flooders (20..60 pipelined calls) and single callers whose one complete call appears after a tape-chosen number of flooder replies, optional short-lived and streaming clients. Post-run fairness monitor over the recorded order of service entries, call-readable moments, accepts and connection-set changes: no connection served twice while a single caller waits with the set unchanged; at most N x (transitions + 1) other calls overall.",
             "Waiting party is always a single caller delivered in one piece; read_pending_despite_data is off (a transport that withholds readable bytes makes the call not waiting from the server's point of view)."),
+    "C20": (True, "exploration", "DESIGN.md §3 C20",
+            "Real zlink_tokio and zlink_smol notified::{State, Once, Stream} with their real channels, driven poll by poll: every operation sequence over {set, subscribe, poll0, poll1, poll2} up to length 7 (quick) / 9 (thorough), every one-shot sequence over {poll, notify, drop notifier} up to length 3, plus 1.5e5 / 3e6 seeded sequences that also drop subscribers and clone/drop states. Model: values yielded are set values, strictly increasing, marked continuing; no end while a state exists; after draining the last item is the last value set; a pending subscriber is woken by the next set; one-shot = exactly one final item then end; both crates run the same sequence.",
+            "Single-threaded operation sequences; races inside the channel crates under real parallelism are out of scope."),
 }
 
 PLANNED = { "C18", "C19", "C20"}
